@@ -68,8 +68,16 @@ class World:
             n = 1 if small else rng.choice([1, 1, 2])
             callers.append([('change-target' if equal else rng.choice(kinds)) for _ in range(n)])
         fault = 'none' if small and rng.random() < 0.5 else rng.choice(['none', 'none', 'peer-drop', 'user-drop', 'both-drop', 'silence', 'error-replies'])
-        return {'callers': callers, 'order': rng.choice(['immediate', 'reverse', 'shuffle', 'delayed']), 'updates': rng.random() < 0.4,
+        scen = {'callers': callers, 'order': rng.choice(['immediate', 'reverse', 'shuffle', 'delayed']), 'updates': rng.random() < 0.4,
                 'fault': fault, 'fault_at': rng.randint(0, max(0, sum(len(c) for c in callers))), 'peerseed': rng.randrange(1 << 20)}
+        if not small and rng.random() < 0.2:
+            # staggered requests with equal keys against a slow peer that never answers the first one: time-outs of
+            # sent and of held-back requests overlap with later requests of the same key
+            ncall = rng.choice([3, 4])
+            scen.update(callers=[['change-target'] * rng.choice([1, 1, 2]) for _ in range(ncall)], fault='silence-first', fault_at=1,
+                        order='slow', peer_delay=rng.choice([3.0, 5.0, 7.0]),
+                        start_delays=[0.0] + sorted(rng.choice([1.0, 3.0, 5.0, 8.0, 10.5, 11.0, 12.0, 14.0]) for _ in range(ncall - 1)))
+        return scen
 
     # ---------------------------------------------------------------- scripted peer
     def make_peer(self, scen, state):
@@ -127,7 +135,7 @@ class World:
                             self.sockmod.listeners.clear()       # reconnect attempts are refused from now on
                             sock.peer_close()
                             return
-                        if fault == 'silence' and nreq > scen['fault_at']:
+                        if (fault == 'silence' and nreq > scen['fault_at']) or (fault == 'silence-first' and nreq <= scen['fault_at']):
                             state['silenced'].append((action, ident, payload))
                             continue
                         if fault == 'error-replies' and rng.random() < 0.5:
@@ -140,7 +148,14 @@ class World:
                             reply = encode('pong', ident, [None, {'t': 1.0}])
                         else:
                             reply = encode(action + '_reply', ident, payload)
-                        if scen['order'] == 'immediate':
+                        if scen['order'] == 'slow':
+                            # replies are sent peer_delay seconds after the request, without blocking the receiver
+                            def later(reply=reply, d=scen['peer_delay']):
+                                D.vsleep(d)
+                                if not sock.closed:
+                                    sock.peer_send(reply)
+                            D.CoThread(target=later, name=f'peer-reply{nreq}').start()
+                        elif scen['order'] == 'immediate':
                             sock.peer_send(reply)
                         elif scen['order'] == 'delayed':
                             D.vsleep(rng.choice([0.0, 0.01, 0.5, 2.0]))
@@ -178,6 +193,8 @@ class World:
             info['client'] = cl
 
             def caller(i):
+                if scen.get('start_delays'):
+                    D.vsleep(scen['start_delays'][i])
                 for j, kind in enumerate(scen['callers'][i]):
                     token[0] += 1
                     tok = token[0] * 10 + i
@@ -279,6 +296,14 @@ class World:
                       'read-value': action == 'reply' and ident == 'm:value',
                       'ping': action == 'pong' and ident == f'tok{tok}',
                       'unknown': action == 'xyz_reply' and data == tok}[kind]
+                if not ok and scen.get('order') == 'slow' and action == 'changed' and ident == 'm:target' and data and \
+                        any(v.get('tok') == data[0] for v in results.values()) and \
+                        any(v.get('error', ('',))[0] == 'TimeoutError' for v in results.values()):
+                    # the reply of a request that had already timed out arrived late: without message ids it is taken for
+                    # the reply of the next request with the same key, whose own reply then shifts to the one after it
+                    # (the value is a real reply to another request of this run) - counted, not judged
+                    r.count('late_replies_taken_for_the_next_equal_request')
+                    continue
                 if not ok:
                     r.violation(f'C11/wrong-reply/{kind}', f'caller {key} sent token {tok}, got {rec_["reply"]!r}'[:200], case)
                     return
@@ -291,15 +316,16 @@ class World:
                         return
                     r.count('replies_matched')
                 elif cls in ('ConnectionError', 'ConnectionClosed', 'BrokenPipeError', 'CommunicationFailedError', 'OSError', 'ConnectionRefusedError'):
-                    if first_drop is None and scen['fault'] not in ('silence',):
+                    if first_drop is None and scen['fault'] not in ('silence', 'silence-first'):
                         r.violation('C11/connection-error-without-drop', f'caller {key}: {cls}: {text}', case)
                         return
                 elif cls == 'TimeoutError':
-                    silenced = scen['fault'] == 'silence'
+                    silenced = scen['fault'] == 'silence' or (scen['fault'] == 'silence-first' and
+                                                              any(pl == float(tok) for a, i, pl in state['silenced']))
                     # equal keys are sent one at a time: with a slow peer the time-out legitimately includes queueing.
                     # judged only if the request reached the peer early enough for its (at most 2 s delayed) reply
                     seen = [t for t, a, i, pl in state['requests_seen'] if pl == (float(tok) if rec_['kind'] == 'change-target' else tok) or i == f'tok{tok}']
-                    late = not seen or seen[0] + 2.5 > rec_['t_call'] + TIMEOUT
+                    late = not seen or seen[0] + scen.get('peer_delay', 2.0) + 0.5 > rec_['t_call'] + TIMEOUT
                     if not silenced and first_drop is None and late:
                         r.count('timeouts_explained_by_queueing')
                         continue
